@@ -87,7 +87,11 @@ func runC10(c *core.Ctx) {
 			mtu = 3 + []int{9, 0, 1, 2, 5, 20, 37, 1197}[t.Intn(8)] + t.Intn(4) // the path MTU changed between access units
 			cons.mtu = mtu
 		}
-		au := genH264AUx(t, mtu, !foreign, &state, supersede)
+		gmtu := mtu
+		if varyMTU && gmtu > 999 {
+			gmtu = 999 // no jumbo units in runs whose MTU may drop to 3 later: a 66 KB unit at 1 byte per fragment outgrows the event budget
+		}
+		au := genH264AUx(t, gmtu, !foreign, &state, supersede)
 		if state != 0 {
 			c.Probe("sps-one-call-pps-next")
 			nontrivial = true
